@@ -428,6 +428,7 @@ func c01MainStack(stderr string) []string {
 //  2. otherwise the source file of the innermost frame that is on the stack in
 //     all samples but at most one (the function that contains the loop / the
 //     whole slow computation), e.g. "mklexer.go".
+//
 // For a run that ends after `cpu` of CPU time (time verdicts) 12 samples are
 // taken at evenly spaced CPU times (the program is deterministic, so the set
 // of stacks is nearly so); for a hang (cpu = 0) 8 samples between 1 s and 2.75 s of CPU.
